@@ -282,7 +282,7 @@ fn case2<T: Elem>(case: u64, args: &Args, ev: &mut Ev) {
 
 fn main() {
     let args = Args::parse("C20");
-    let n = args.budget(600, 20000);
+    let n = args.budget(600, 200000);
     let ev = run_sharded(&args, n, |case, ev, _log| {
         let f32_ = case % 5 == 4;
         match (case % 2, f32_) {
